@@ -1,9 +1,17 @@
 use crate::engine::PropDyn;
 
 pub mod c01;
+pub mod c02;
 pub mod c11;
 pub mod c12;
+pub mod c13;
 
 pub fn all() -> Vec<Box<dyn PropDyn>> {
-    vec![Box::new(c01::prop()), Box::new(c11::prop()), Box::new(c12::prop())]
+    vec![
+        Box::new(c01::prop()),
+        Box::new(c02::prop()),
+        Box::new(c11::prop()),
+        Box::new(c12::prop()),
+        Box::new(c13::prop()),
+    ]
 }
